@@ -41,7 +41,7 @@ PROBES = ["card skipped by sampler (all its contests finished)", "card listing n
           "two contests share threshold card", "continued call added cards", "sample numbers equal as floats",
           "second draw on the same contests with new numbers", "list sorted in place between draws",
           "size beyond the number of real CVRs (phantoms needed)", "sample sizes handed over as numpy integers",
-          "sample size above 256"]
+          "sample size above 256", "contest added in place to cards already drawn from"]
 
 
 class SchedPrng:
@@ -136,6 +136,8 @@ def generate(rng, tier):
         nxt.append(cur)
     return {"contests": contests, "cards": cards, "alt": alt, "numbering": numbering, "sizes": sizes, "sizes_next": nxt,
             "size_type": rng.pick(["int", "int", "np"]),
+            "late_contest": ({"cid": rng.pick(cids), "cards": rng.sample(range(ncards), rng.randint(1, min(ncards, 4))),
+                              "more": rng.randint(0, 3)} if rng.chance(0.3) else None),
             "pipeline": rng.chance(0.35), "return_order": rng.perm(ncards), "mvr_from_alt": rng.chance(0.5),
             # auditors' faults on the manual records: card not found (phantom record), record lacks a contest
             # a second, independent draw on the same Contest objects and the same list (a pilot, then the real draw):
@@ -355,6 +357,49 @@ def execute(case):
             con.sample_size = sizes[cid]
             con.sample_threshold = keep_thr[cid]
 
+    # ---- C07.j a contest is added in place to cards that did not list it (a contest joins the audit, the ONEAudit pooling
+    # step) after the same objects were already drawn from: selection depends on what each card lists *now*
+    lc = case.get("late_contest")
+    if lc and idx == ref_idx:
+        lcid = lc["cid"]
+        who = [i for i in lc["cards"] if i < len(cvrs) and lcid not in cvrs[i].votes]
+        if who and lcid in contests:
+            keep_thr = {cid: con.sample_threshold for cid, con in contests.items()}
+            keep_flags = [c.sampled for c in cvrs]
+            for i in who:
+                cvrs[i].votes[lcid] = {}
+            cards_now = [dict(c, votes=dict(c["votes"], **({lcid: {}} if i in who else {}))) for i, c in enumerate(cards)]
+            sz3 = dict(sizes)
+            sz3[lcid] = min(sum(1 for c in cards_now if lcid in c["votes"]), sizes[lcid] + lc["more"])
+            for cid, con in contests.items():
+                con.sample_size = sz3[cid]
+            r_idx, r_thr, _ = reference(cards_now, nums, sz3)
+            out.units["sampler_calls"] += 1
+            out.probe("contest added in place to cards already drawn from")
+            try:
+                got = [int(i) for i in ns.CVR.consistent_sampling(cvr_list=cvrs, contests=contests)]
+                out.ev("late-contest", got)
+                out.shape("late-contest")
+                if got != r_idx:
+                    out.violate("C07.j", "late-contest/selection" if sorted(got) != sorted(r_idx) else "late-contest/order",
+                                f"after contest {lcid} was added in place to cards {who} the draw selected {got}; the union of "
+                                f"per-contest prefixes is {r_idx} (sizes {sz3})")
+                else:
+                    bad = [c for c in r_thr if contests[c].sample_threshold != r_thr[c]]
+                    if bad:
+                        out.violate("C07.j", "late-contest/threshold", f"after contest {lcid} was added in place the threshold of {bad[0]} is "
+                                                                       f"{contests[bad[0]].sample_threshold}, its n-th card has {r_thr[bad[0]]}")
+            except Exception as e:
+                out.raised("consistent_sampling(late contest)", e)
+                out.violate("C07.j", f"late-contest/raised-{type(e).__name__}", f"drawing after a contest was added in place raised {e!r}")
+            for i in who:
+                del cvrs[i].votes[lcid]
+            for c, f in zip(cvrs, keep_flags):
+                c.sampled = f
+            for cid, con in contests.items():
+                con.sample_size = sizes[cid]
+                con.sample_threshold = keep_thr[cid]
+
     # ---- C07.i phantoms made by the library (which records Contest.cvrs), then sizes beyond the number of real CVRs
     lp = case.get("lib_phantoms")
     real = [c for c in cards if not c.get("phantom")]
@@ -522,6 +567,8 @@ def reducers(case):
         c["return_order"] = [j for j in c["return_order"] if j < n - 1]
         if c.get("redraw"):
             del c["redraw"]["numbers"][i]
+        if c.get("late_contest"):
+            c["late_contest"]["cards"] = [j - (j > i) for j in c["late_contest"]["cards"] if j != i]
         c["mvr_phantom"] = [j - (j > i) for j in c.get("mvr_phantom", []) if j != i]
         c["mvr_drop"] = {str(int(j) - (int(j) > i)): v for j, v in c.get("mvr_drop", {}).items() if int(j) != i}
         yield _clamp(c)
@@ -540,6 +587,8 @@ def reducers(case):
             sz.pop(cid, None)
         if c.get("redraw"):
             c["redraw"]["sizes"].pop(cid, None)
+        if c.get("late_contest") and c["late_contest"]["cid"] == cid:
+            c["late_contest"] = None
         if c.get("lib_phantoms"):
             c["lib_phantoms"]["shortfall"].pop(cid, None)
             c["lib_phantoms"]["extra"].pop(cid, None)
